@@ -444,11 +444,11 @@ func (p *c08) Generate(r *rand.Rand, i int) any {
 	switch k := r.Intn(100); {
 	case k < 28:
 		return c08GenSplit(r)
-	case k < 62:
+	case k < 60:
 		c := c08GenFiles(r, "sort")
 		c.Uninstall = r.Intn(3) == 0
 		return c
-	case k < 92:
+	case k < 90:
 		return c08GenFiles(r, "render")
 	default:
 		return c08GenBarrier(r)
